@@ -227,6 +227,23 @@ def encode(plans):
     return res
 
 
+def pjpeg_words(rng, bw, bh, op="pjpeg"):
+    """`pjpeg <seed> <bw> <bh> <script> <ri> <tables> <style> <resets> <pad>` (harness/src/bin/c17e.rs), feed word left to the caller"""
+    script = rng.choice(["b", "bs", "A", "B", "R", "R"])
+    tables = rng.choice(["c", "cs"]) if script in "ABR" else rng.choice(["k", "c", "cs"])
+    return (f"{op} {rng.randrange(1, 10 ** 6)} {bw} {bh} {script} {rng.choice([0, 0, 1, 3, bw])} {tables} "
+            f"{rng.choice('nnqz')} {rng.choice([0, 0, 2])} {rng.choice('dn')}")
+
+
+def hostile_jbrd_lines(rng, n):
+    """`hjbrd` cases: a synthetic transcode whose reconstruction data got seeded structural damage"""
+    out = []
+    for _ in range(n):
+        bw, bh = rng.choice([(1, 1), (2, 2), (3, 2), (5, 4), (8, 8), (33, 2)])
+        out.append(pjpeg_words(rng, bw, bh, op=f"hjbrd {rng.randrange(1, 10 ** 9)}") + " " + rng.choice(["w", "w", "w", "64"]))
+    return out
+
+
 def synth_vardct(ctx, n, max_blocks=36):
     """[(label, container bytes, original JPEG bytes)]: VarDCT images (DCT8 blocks, YCbCr 4:4:4) with a jbrd
     box, from the synthetic lossless JPEG transcoder of harness/src/synth.rs (driver: harness bin c17e)"""
@@ -237,8 +254,12 @@ def synth_vardct(ctx, n, max_blocks=36):
         bw, bh = rng.choice([(1, 1), (2, 2), (3, 2), (4, 4), (5, 3), (6, 6), (9, 4), (33, 1), (17, 3), (40, 33), (64, 20)])
         while bw * bh > max_blocks:
             bw, bh = max(1, bw // 2), max(1, bh // 2)
-        lines.append(f"jpeg {rng.randrange(1, 10 ** 6)} {bw} {bh} {rng.choice('isr')} {rng.choice('dzn')} "
-                     f"{rng.choice([0, 0, 2])} {rng.choice(['-', 'e', 'x', 'c'])} emit")
+        if rng.random() < 0.6:
+            lines.append(f"jpeg {rng.randrange(1, 10 ** 6)} {bw} {bh} {rng.choice('isr')} {rng.choice('dzn')} "
+                         f"{rng.choice([0, 0, 2])} {rng.choice(['-', 'e', 'x', 'c'])} emit")
+        else:
+            # progressive scans / restart intervals / seeded Huffman tables in the reconstruction data
+            lines.append(pjpeg_words(rng, bw, bh) + " emit")
     out = []
     for l, o in zip(lines, run_lines_robust([ctx.harness_bin("c17e")], lines, per_line_timeout=60)):
         w = (o or "").split()
